@@ -19,12 +19,18 @@ Model/NameWire.vos Model/NameWire.vok Model/NameWire.required_vos: Model/NameWir
 Model/Rrl.vo Model/Rrl.glob Model/Rrl.v.beautified Model/Rrl.required_vo: Model/Rrl.v Base/Res.vo Base/Octets.vo Gen/RrlConsts.vo
 Model/Rrl.vio: Model/Rrl.v Base/Res.vio Base/Octets.vio Gen/RrlConsts.vio
 Model/Rrl.vos Model/Rrl.vok Model/Rrl.required_vos: Model/Rrl.v Base/Res.vos Base/Octets.vos Gen/RrlConsts.vos
+Model/RrlConc.vo Model/RrlConc.glob Model/RrlConc.v.beautified Model/RrlConc.required_vo: Model/RrlConc.v Model/Rrl.vo
+Model/RrlConc.vio: Model/RrlConc.v Model/Rrl.vio
+Model/RrlConc.vos Model/RrlConc.vok Model/RrlConc.required_vos: Model/RrlConc.v Model/Rrl.vos
 Proofs/NameWireP.vo Proofs/NameWireP.glob Proofs/NameWireP.v.beautified Proofs/NameWireP.required_vo: Proofs/NameWireP.v Base/ListX.vo Model/NameWire.vo Spec/NameWireS.vo Spec/NameRepr.vo
 Proofs/NameWireP.vio: Proofs/NameWireP.v Base/ListX.vio Model/NameWire.vio Spec/NameWireS.vio Spec/NameRepr.vio
 Proofs/NameWireP.vos Proofs/NameWireP.vok Proofs/NameWireP.required_vos: Proofs/NameWireP.v Base/ListX.vos Model/NameWire.vos Spec/NameWireS.vos Spec/NameRepr.vos
 Proofs/NameWireSP.vo Proofs/NameWireSP.glob Proofs/NameWireSP.v.beautified Proofs/NameWireSP.required_vo: Proofs/NameWireSP.v Base/ListX.vo Spec/NameWireS.vo
 Proofs/NameWireSP.vio: Proofs/NameWireSP.v Base/ListX.vio Spec/NameWireS.vio
 Proofs/NameWireSP.vos Proofs/NameWireSP.vok Proofs/NameWireSP.required_vos: Proofs/NameWireSP.v Base/ListX.vos Spec/NameWireS.vos
+Proofs/RrlConcP.vo Proofs/RrlConcP.glob Proofs/RrlConcP.v.beautified Proofs/RrlConcP.required_vo: Proofs/RrlConcP.v Base/Res.vo Base/Octets.vo Model/Rrl.vo Model/RrlConc.vo Spec/RrlBucketS.vo Proofs/RrlP.vo
+Proofs/RrlConcP.vio: Proofs/RrlConcP.v Base/Res.vio Base/Octets.vio Model/Rrl.vio Model/RrlConc.vio Spec/RrlBucketS.vio Proofs/RrlP.vio
+Proofs/RrlConcP.vos Proofs/RrlConcP.vok Proofs/RrlConcP.required_vos: Proofs/RrlConcP.v Base/Res.vos Base/Octets.vos Model/Rrl.vos Model/RrlConc.vos Spec/RrlBucketS.vos Proofs/RrlP.vos
 Proofs/RrlKeyP.vo Proofs/RrlKeyP.glob Proofs/RrlKeyP.v.beautified Proofs/RrlKeyP.required_vo: Proofs/RrlKeyP.v Base/Res.vo Base/Octets.vo Model/Rrl.vo Spec/RrlBucketS.vo Spec/RrlStreamS.vo Proofs/RrlP.vo
 Proofs/RrlKeyP.vio: Proofs/RrlKeyP.v Base/Res.vio Base/Octets.vio Model/Rrl.vio Spec/RrlBucketS.vio Spec/RrlStreamS.vio Proofs/RrlP.vio
 Proofs/RrlKeyP.vos Proofs/RrlKeyP.vok Proofs/RrlKeyP.required_vos: Proofs/RrlKeyP.v Base/Res.vos Base/Octets.vos Model/Rrl.vos Spec/RrlBucketS.vos Spec/RrlStreamS.vos Proofs/RrlP.vos
@@ -40,6 +46,9 @@ Props/C26.vos Props/C26.vok Props/C26.required_vos: Props/C26.v Base/Res.vos Bas
 Props/C27.vo Props/C27.glob Props/C27.v.beautified Props/C27.required_vo: Props/C27.v Base/Res.vo Base/Octets.vo Model/Rrl.vo Spec/RrlBucketS.vo Spec/RrlStreamS.vo Proofs/RrlP.vo Proofs/RrlKeyP.vo
 Props/C27.vio: Props/C27.v Base/Res.vio Base/Octets.vio Model/Rrl.vio Spec/RrlBucketS.vio Spec/RrlStreamS.vio Proofs/RrlP.vio Proofs/RrlKeyP.vio
 Props/C27.vos Props/C27.vok Props/C27.required_vos: Props/C27.v Base/Res.vos Base/Octets.vos Model/Rrl.vos Spec/RrlBucketS.vos Spec/RrlStreamS.vos Proofs/RrlP.vos Proofs/RrlKeyP.vos
+Props/C28.vo Props/C28.glob Props/C28.v.beautified Props/C28.required_vo: Props/C28.v Base/Res.vo Base/Octets.vo Model/Rrl.vo Model/RrlConc.vo Proofs/RrlP.vo Proofs/RrlConcP.vo
+Props/C28.vio: Props/C28.v Base/Res.vio Base/Octets.vio Model/Rrl.vio Model/RrlConc.vio Proofs/RrlP.vio Proofs/RrlConcP.vio
+Props/C28.vos Props/C28.vok Props/C28.required_vos: Props/C28.v Base/Res.vos Base/Octets.vos Model/Rrl.vos Model/RrlConc.vos Proofs/RrlP.vos Proofs/RrlConcP.vos
 Spec/NameRepr.vo Spec/NameRepr.glob Spec/NameRepr.v.beautified Spec/NameRepr.required_vo: Spec/NameRepr.v Model/NameWire.vo Spec/NameWireS.vo
 Spec/NameRepr.vio: Spec/NameRepr.v Model/NameWire.vio Spec/NameWireS.vio
 Spec/NameRepr.vos Spec/NameRepr.vok Spec/NameRepr.required_vos: Spec/NameRepr.v Model/NameWire.vos Spec/NameWireS.vos
